@@ -263,27 +263,80 @@ def _chunk_worker(args):
     return agg
 
 
+CHUNK = {"default": 100, "C16": 10}
+
+
+def chunk_bounds(prop_id, idx):
+    """the chunk (one forked process) a run index belongs to: fixed-size, aligned, independent
+    of the number of workers - so that the process-global history of a run is reproducible."""
+    c = CHUNK.get(prop_id, CHUNK["default"])
+    lo = (idx // c) * c
+    return lo, lo + c
+
+
+def _child_main(task, conn):
+    try:
+        conn.send(("ok", _chunk_worker(task)))
+    except BaseException as e:  # noqa
+        try:
+            conn.send(("err", repr(e) + "\n" + traceback.format_exc()))
+        except Exception:
+            pass
+    finally:
+        conn.close()
+        os._exit(0)
+
+
 def run_indices(mod, seed, tier, lo, hi, workers, chunk=None):
-    """Run run-indices [lo,hi) over forked workers; merge in index order."""
-    import concurrent.futures as cf
+    """Run run-indices [lo,hi).  Every chunk runs in its OWN process forked from this one, so
+    the process-global state a run can see (module-level caches of the system under test) is
+    exactly: the parent's deterministic pre-steps + the earlier runs of the same chunk.
+    Results are merged in index order."""
     import multiprocessing as mp
-    chunk = chunk or max(1, min(200, (hi - lo) // (workers * 4) or 1))
-    tasks = [(mod.__name__, seed, tier, a, min(a + chunk, hi)) for a in range(lo, hi, chunk)]
-    results = []
+    from multiprocessing.connection import wait
+    c = chunk or CHUNK.get(mod.PROP_ID, CHUNK["default"])
+    tasks = []
+    a = lo
+    while a < hi:
+        b = min(((a // c) + 1) * c, hi)
+        tasks.append((mod.__name__, seed, tier, a, b))
+        a = b
+    results = {}
     if workers <= 1:
-        for t in tasks:
-            results.append(_chunk_worker(t))
+        for k, t in enumerate(tasks):
+            results[k] = _chunk_worker(t)
     else:
         ctx = mp.get_context("fork")
-        with cf.ProcessPoolExecutor(max_workers=workers, mp_context=ctx) as ex:
-            futs = [ex.submit(_chunk_worker, t) for t in tasks]
-            for f in futs:
+        pending = list(enumerate(tasks))
+        running = {}
+        deadline = time.time() + 6 * 3600
+        while pending or running:
+            while pending and len(running) < workers:
+                k, t = pending.pop(0)
+                r, w = ctx.Pipe(duplex=False)
+                p = ctx.Process(target=_child_main, args=(t, w))
+                p.start()
+                w.close()
+                running[r] = (p, k)
+            ready = wait(list(running), timeout=60)
+            if time.time() > deadline:
+                for p, _ in running.values():
+                    p.kill()
+                raise HarnessError("batch timed out")
+            for r in ready:
+                p, k = running.pop(r)
                 try:
-                    results.append(f.result(timeout=3600))
-                except Exception as e:  # worker death / timeout: harness error, never a pass
-                    for g in futs:
-                        g.cancel()
-                    raise HarnessError("worker failed: %r" % (e,))
+                    status, payload = r.recv()
+                except (EOFError, OSError):
+                    status, payload = "err", "worker for chunk %d died (exit code %s)" % (k, p.exitcode)
+                r.close()
+                p.join()
+                if status != "ok":
+                    for q, _ in running.values():
+                        q.kill()
+                    raise HarnessError("worker failed: %s" % payload)
+                results[k] = payload
+    results = [results[k] for k in sorted(results)]
     merged = {"stats": Counter(), "probes": Counter(), "states": set(), "trans": set(),
               "digests": [], "nontrivial": [], "steps": 0, "oracle_steps": 0,
               "violations": [], "samples": [], "cfgs": Counter(), "extra": []}
